@@ -87,6 +87,8 @@ pub struct Profile {
     pub max_list_len: usize,
     /// allow 8-bit dictionary keys (whose key space a concatenation can exhaust)
     pub small_dict_keys: bool,
+    /// every field is declared nullable (CSV cannot tell an empty string from a null)
+    pub all_nullable: bool,
 }
 
 impl Profile {
@@ -116,6 +118,7 @@ impl Profile {
             max_str_len: 12,
             max_list_len: 4,
             small_dict_keys: true,
+            all_nullable: false,
         }
     }
     pub fn everything() -> Self {
@@ -189,7 +192,7 @@ pub fn leaf_type(ctx: &Ctx, l: Leaf) -> DataType {
 
 fn child_field(ctx: &Ctx, name: &str, p: &Profile, depth: u32) -> Field {
     let dt = gen_type(ctx, p, depth);
-    let nullable = dt == DataType::Null || !ctx.chance(1, 4, "nonnull");
+    let nullable = dt == DataType::Null || !ctx.chance(1, 4, "nonnull") || p.all_nullable;
     Field::new(name, dt, nullable)
 }
 
@@ -331,6 +334,8 @@ pub fn gen_value(ctx: &Ctx, dt: &DataType, nullable: bool, p: &Profile, depth: u
         DataType::Boolean => V::Bool(ctx.chance(1, 2, "bool")),
         DataType::Int8 => V::Int(int_in(ctx, i8::MIN as i128, i8::MAX as i128, p)),
         DataType::Int16 => V::Int(int_in(ctx, i16::MIN as i128, i16::MAX as i128, p)),
+        // text formats print dates through chrono: keep them within years 1..9999 unless extremes are wanted
+        DataType::Date32 if !p.extreme => V::Int(int_in(ctx, -700_000, 2_900_000, p)),
         DataType::Int32 | DataType::Date32 | DataType::Interval(IntervalUnit::YearMonth) => V::Int(int_in(ctx, i32::MIN as i128, i32::MAX as i128, p)),
         DataType::Time32(u) => V::Int(int_in(ctx, 0, if *u == TimeUnit::Second { 86_399 } else { 86_399_999 }, p)),
         DataType::Time64(u) => V::Int(int_in(ctx, 0, if *u == TimeUnit::Microsecond { 86_399_999_999 } else { 86_399_999_999_999 }, p)),
@@ -416,8 +421,8 @@ pub fn gen_value(ctx: &Ctx, dt: &DataType, nullable: bool, p: &Profile, depth: u
             }
         }
         DataType::RunEndEncoded(_, vf) => {
-            let v = gen_value(ctx, vf.data_type(), true, p, depth + 1);
-            v
+            // nullness of a run-end-encoded value is the nullness of the column: already decided above
+            gen_value(ctx, vf.data_type(), false, p, depth + 1)
         }
         DataType::Struct(fs) => V::Struct(fs.iter().map(|f| gen_value(ctx, f.data_type(), f.is_nullable(), p, depth + 1)).collect()),
         DataType::List(f) | DataType::LargeList(f) | DataType::ListView(f) | DataType::LargeListView(f) => {
